@@ -266,6 +266,18 @@ impl SecondaryStorage {
             ordered_pk_ids: ordered_pk_ids.to_vec(),
         };
 
+        // Check, persist and apply as one step: two sessions creating the same name both passed
+        // the binder's check, both logged a CreateTable record, and the manifest could not be
+        // replayed any more.
+        let _ddl = self.ddl_lock.lock().await;
+        if self
+            .catalog
+            .get_schema_by_id(schema_id)
+            .is_some_and(|s| s.get_table_by_name(table_name).is_some())
+        {
+            return Err(TracedStorageError::duplicated("table", table_name));
+        }
+
         // persist to manifest first
         self.version
             .commit_changes(vec![EpochOp::CreateTable(entry.clone())])
